@@ -684,11 +684,104 @@ theorem dataElem_good (c : Ctx) (hn : c.base + c.n < 2^63) (hc : c.Canon) (d : D
       Or.inr ⟨(p, 0, d.lenSize + c.rd p d.lenSize), by simp, by simp only; omega, ?_⟩, trivial⟩
     simp only; omega
 
+/-- tie to the code: the size check of `resize(count, default_init)` is executed unconditionally.
+    (If it becomes conditional the model `dataResize` follows the new shape, this lemma and with it
+    every theorem about `<data>` mutators stop building.) -/
+theorem resize_unconditional : dynamic_array_ref_resize__count_default_init_t.checkCond? 0 = some none := rfl
+
+theorem dataResize_eq (c : Ctx) (d : DataL) (p count : Nat) :
+    dataResize c d p count =
+      [.check p 0 (d.lenSize + count) (evalSizeCheck dynamic_array_ref_resize__count_default_init_t 0
+        (dynEnv c d p ++ [("count", uval d.lenSize count)])), .touch p d.lenSize true] := by
+  simp only [dataResize, resize_unconditional]
+
 theorem dataResize_good (c : Ctx) (hn : c.base + c.n < 2^63) (d : DataL) (p count : Nat)
     (hv : CanonV d.lenSize count) : Good c (dataResize c d p count) := by
+  rw [dataResize_eq]
   refine ⟨⟨fun h63 hnw => ?_, trivial⟩, ?_⟩
   · rw [dataResize_check c d p count h63 hn (by omega) hv, mod_of_lt64 (by omega), Nat.zero_add]
   · exact ⟨Or.inr ⟨(p, 0, d.lenSize + count), by simp, by simp, by simp only; omega⟩, trivial⟩
+
+theorem dataCheckedWith_faithful (c : Ctx) (hn : c.base + c.n < 2^63) (d : DataL) (p len : Nat)
+    (hv : CanonV d.lenSize len) : Faithful c (dataCheckedWith c d p len) := by
+  unfold dataCheckedWith
+  refine (faithful_append c _ _).mpr ⟨(faithful_append c _ _).mpr ⟨(getValue_good c hn _ _ _).1, ?_⟩,
+    (dataUnchecked_good c hn d p).1⟩
+  refine ⟨fun h63 hnw => ?_, trivial⟩
+  rw [dataChecked_check c d p len h63 hn (by omega) hv, mod_of_lt64 (by omega)]
+  simp
+
+/-- `assign(count, value)` / `assign_string`: every write is preceded by the check that covers it -/
+theorem dataAssignN_good (c : Ctx) (hn : c.base + c.n < 2^63) (d : DataL) (p count : Nat)
+    (hv : CanonV d.lenSize count) : Good c (dataAssignN c d p count) := by
+  constructor
+  · unfold dataAssignN
+    exact (faithful_append c _ _).mpr ⟨(faithful_append c _ _).mpr ⟨(dataResize_good c hn d p count hv).1,
+      dataCheckedWith_faithful c hn d p count hv⟩, trivial⟩
+  · unfold dataAssignN dataCheckedWith
+    rw [dataResize_eq]
+    simp only [getValue, dataUnchecked, List.cons_append, List.nil_append, Covered]
+    refine ⟨Or.inr ⟨(p, 0, d.lenSize + count), by simp, by simp, by simp only; omega⟩,
+      Or.inr ⟨(p, 0, d.lenSize), by simp, by simp, by simp⟩,
+      Or.inr ⟨(p, 0, d.lenSize + count), by simp, by simp only; omega, by simp only; omega⟩, trivial⟩
+
+theorem assignIlist_check (c : Ctx) (d : DataL) (p len : Nat) (hb : c.base + p < 2^63) (hn : c.base + c.n < 2^63)
+    (hl : d.lenSize < 2^64) (hv : len < 2^64) :
+    evalSizeCheck dynamic_array_ref_assign__ilist 0 (dynEnv c d p ++ [("ilist_size", u64 len)])
+      = some (stdOk (c.base + p) (c.base + c.n) ((d.lenSize + len) % 2^64)) := by
+  have ha : Env.get? (dynEnv c d p ++ [("ilist_size", u64 len)]) "sizeof_size_type" = some (u64 d.lenSize) := rfl
+  have hb' : Env.get? (dynEnv c d p ++ [("ilist_size", u64 len)]) "ilist_size" = some (u64 len) := rfl
+  have hsum : (CExpr.bin .add (.var "sizeof_size_type") (.var "ilist_size")).eval (dynEnv c d p ++ [("ilist_size", u64 len)])
+      = some ⟨.u64, (d.lenSize + len) % 2^64⟩ := by
+    rw [eval_add_vars _ _ _ _ _ ha hb']
+    exact add_u64_left .u64 d.lenSize len hl (nn_u64 len hv)
+  rw [evalSizeCheck_of dynamic_array_ref_assign__ilist 0 _ _ _ _ _ _ (c.p p) c.endp ⟨.i32, 0⟩ ⟨.u64, (d.lenSize + len) % 2^64⟩ rfl rfl rfl rfl hsum]
+  have hlt : (d.lenSize + len) % 2^64 < 2^64 := Nat.mod_lt _ (by decide)
+  exact macro_eval _ _ _ _ CTy.u64.promote _ hb hn (add_zero_left .u64 _ (nn_u64 _ hlt)) (nn_u64 _ hlt)
+
+/-- `assign(ilist)`: the overload's own check precedes and covers the copy of `assign(first, last)` -/
+theorem dataAssignIlist_good (c : Ctx) (hn : c.base + c.n < 2^63) (d : DataL) (p len : Nat)
+    (hv : CanonV d.lenSize len) : Good c (dataAssignIlist c d p len) := by
+  constructor
+  · unfold dataAssignIlist dataAssignRange
+    refine (faithful_append c _ _).mpr ⟨⟨fun h63 hnw => ?_, trivial⟩,
+      (faithful_append c _ _).mpr ⟨(faithful_append c _ _).mpr ⟨(dataUnchecked_good c hn d p).1, trivial⟩,
+        (dataResize_good c hn d p len hv).1⟩⟩
+    rw [assignIlist_check c d p len h63 hn (by omega) (by omega), mod_of_lt64 (by omega), Nat.zero_add]
+  · unfold dataAssignIlist dataAssignRange
+    rw [dataResize_eq]
+    simp only [dataUnchecked, List.cons_append, List.nil_append, Covered]
+    refine ⟨Or.inr ⟨(p, 0, d.lenSize + len), by simp, by simp only; omega, by simp only; omega⟩,
+      Or.inr ⟨(p, 0, d.lenSize + len), by simp, by simp, by simp only; omega⟩, trivial⟩
+
+theorem dataPush_good (c : Ctx) (hn : c.base + c.n < 2^63) (d : DataL) (p : Nat)
+    (hv : CanonV d.lenSize ((dataLen c d p).2 + 1)) : Good c (dataPush c d p) := by
+  simp only [dataLen] at hv
+  constructor
+  · unfold dataPush
+    simp only [dataLen]
+    exact (faithful_append c _ _).mpr ⟨(faithful_append c _ _).mpr ⟨(faithful_append c _ _).mpr
+      ⟨(faithful_append c _ _).mpr ⟨(faithful_append c _ _).mpr ⟨(getValue_good c hn _ _ _).1,
+        (dataResize_good c hn d p _ hv).1⟩, (getValue_good c hn _ _ _).1⟩, trivial⟩,
+        dataCheckedWith_faithful c hn d p _ hv⟩, trivial⟩
+  · unfold dataPush dataCheckedWith
+    simp only [dataResize_eq]
+    simp only [dataLen, getValue, dataUnchecked, List.cons_append, List.nil_append, Covered]
+    refine ⟨Or.inr ⟨(p, 0, d.lenSize), by simp, by simp, by simp⟩,
+      Or.inr ⟨(p, 0, d.lenSize), by simp, by simp, by simp⟩,
+      Or.inr ⟨(p, 0, d.lenSize), by simp, by simp, by simp⟩,
+      Or.inr ⟨(p, 0, d.lenSize), by simp, by simp, by simp⟩,
+      Or.inr ⟨(p, 0, d.lenSize + (c.rd p d.lenSize + 1)), by simp, by simp only; omega, by simp only; omega⟩, trivial⟩
+
+theorem dataPop_good (c : Ctx) (hn : c.base + c.n < 2^63) (hc : c.Canon) (d : DataL) (p : Nat) :
+    Good c (dataPop c d p) := by
+  unfold dataPop
+  simp only [dataLen]
+  refine good_append (good_append (good_append (getValue_good c hn _ _ _) (good_assert c _)) (getValue_good c hn _ _ _))
+    (dataResize_good c hn d p _ ?_)
+  have h := hc p d.lenSize
+  unfold CanonV at h ⊢
+  omega
 
 theorem dataAssignRange_faithful (c : Ctx) (hn : c.base + c.n < 2^63) (d : DataL) (p len : Nat)
     (hv : CanonV d.lenSize len) : Faithful c (dataAssignRange c d p len) := by
@@ -812,6 +905,7 @@ theorem step_good (c : Ctx) (hn : c.base + c.n < 2^63) (hc : c.Canon) (pos : Pos
   try any_goals (with_reducible exact good_append (grpHeader_good c hn _ _) (getValue_good c hn _ _ _))
   try any_goals (with_reducible exact raInc_good c hn _ _ _ hw)
   try any_goals (with_reducible exact fwdInc_good c hn _ _ _)
+  try any_goals (with_reducible exact dataPop_good c hn hc _ _)
   try any_goals (with_reducible exact good_append (headerCheck_good c hn _ _ _ msgHeader_site) (getValue_good c hn _ _ _))
   try any_goals (with_reducible exact good_append (msgFirstDyn_good c hn _) (evL_good c hn _ _ _))
   try any_goals (with_reducible exact good_append (good_append (good_append (good_append (grpNum_good c hn _ _) (good_assert c _)) (grpHeader_good c hn _ _)) (getValue_good c hn _ _ _)) (getValue_good c hn _ _ _))
@@ -820,6 +914,10 @@ theorem step_good (c : Ctx) (hn : c.base + c.n < 2^63) (hc : c.Canon) (pos : Pos
   · exact raInc_good c hn _ _ _ hw
   · exact dataElem_good c hn hc _ _ _ _ (by simpa [Op.preB] using hp)
   · exact dataResize_good c hn _ _ _ (by simpa [Op.preB, canonB, CanonV] using hp)
+  · exact dataAssignN_good c hn _ _ _ (by simpa [Op.preB, canonB, CanonV] using hp)
+  · exact dataAssignIlist_good c hn _ _ _ (by simpa [Op.preB, canonB, CanonV] using hp)
+  · exact dataPush_good c hn _ _ (by simpa [Op.preB, canonB, CanonV] using hp)
+  · exact dataResize_good c hn _ _ 0 (Nat.two_pow_pos _)
 
 theorem walk_good (c : Ctx) (hn : c.base + c.n < 2^63) (hc : c.Canon) : ∀ (ops : List Op) (pos : Pos) (evs : List Ev),
     PosWF pos → opsOk c pos ops = true → ops.all Op.checkedFirst = true → walk c pos ops = some evs → Good c evs := by
@@ -1406,5 +1504,195 @@ theorem travMsg_good (c : Ctx) (hn : c.base + c.n < 2^63) (hc : c.Canon) (m : CM
     Good c (travMsg c m tg).evs := by
   unfold travMsg
   exact travL_good c hn hc tg m.level _ _ (headerCheck_good c hn _ _ _ msgHeader_site)
+
+end Sbepp.Rt.Guards
+
+namespace Sbepp.Rt.Guards
+open Sbepp Sbepp.CVal Sbepp.Extracted.SizeChecks
+
+/-! ### completed calls: coverage by ANY check of the call (before or after the access) -/
+
+def checksOf : List Ev → List (Nat × Nat × Nat)
+  | [] => []
+  | .check b off size _ :: r => (b, off, size) :: checksOf r
+  | _ :: r => checksOf r
+
+/-- every touch lies within the bytes guarded by one of the checks in `all` -/
+def CoveredAny (all : List (Nat × Nat × Nat)) : List Ev → Prop
+  | [] => True
+  | .touch lo len _ :: r => coveredBy all lo len ∧ CoveredAny all r
+  | _ :: r => CoveredAny all r
+
+theorem checksOf_append (a b : List Ev) : checksOf (a ++ b) = checksOf a ++ checksOf b := by
+  induction a with
+  | nil => rfl
+  | cons e r ih => cases e <;> simp [checksOf, ih]
+
+theorem coveredAny_mono (evs : List Ev) (s1 s2 : List (Nat × Nat × Nat)) (h : ∀ t ∈ s1, t ∈ s2)
+    (hc : CoveredAny s1 evs) : CoveredAny s2 evs := by
+  induction evs with
+  | nil => trivial
+  | cons e r ih =>
+    cases e with
+    | check b off size ok => exact ih hc
+    | assert ok => exact ih hc
+    | touch lo len w => exact ⟨coveredBy_mono h hc.1, ih hc.2⟩
+
+theorem coveredAny_append (all : List (Nat × Nat × Nat)) (a b : List Ev) :
+    CoveredAny all (a ++ b) ↔ CoveredAny all a ∧ CoveredAny all b := by
+  induction a with
+  | nil => simp [CoveredAny]
+  | cons e r ih => cases e <;> simp only [List.cons_append, CoveredAny, ih, and_assoc]
+
+theorem covered_imp_any (evs : List Ev) : ∀ (seen : List (Nat × Nat × Nat)),
+    Covered seen evs → CoveredAny (seen ++ checksOf evs) evs := by
+  induction evs with
+  | nil => intros; trivial
+  | cons e r ih =>
+    intro seen hc
+    cases e with
+    | check b off size ok =>
+      simp only [Covered] at hc
+      simp only [CoveredAny, checksOf]
+      refine coveredAny_mono r _ _ ?_ (ih _ hc)
+      intro t ht
+      simp only [List.mem_append, List.mem_cons] at ht ⊢
+      rcases ht with (h | h) | h
+      · exact Or.inr (Or.inl h)
+      · exact Or.inl h
+      · exact Or.inr (Or.inr h)
+    | assert ok => simp only [Covered] at hc; simp only [CoveredAny, checksOf]; exact ih _ hc
+    | touch lo len w =>
+      simp only [Covered] at hc
+      simp only [CoveredAny, checksOf]
+      exact ⟨coveredBy_mono (by intro t ht; exact List.mem_append_left _ ht) hc.1, ih _ hc.2⟩
+
+/-- when no check fails, the bytes guarded by every check of the call lie inside `[0, n)` -/
+theorem checks_bound (c : Ctx) (hwf : c.WF) (evs : List Ev) :
+    Faithful c evs → PtrsRepresentable c evs → NoWrap evs → guard evs = true →
+    ∀ t ∈ checksOf evs, t.1 + t.2.1 + t.2.2 ≤ c.n := by
+  induction evs with
+  | nil => intro _ _ _ _ t ht; cases ht
+  | cons e r ih =>
+    intro hf hv hnw hg
+    cases e with
+    | check b off size ok =>
+      simp only [Faithful, PtrsRepresentable, NoWrap] at hf hv hnw
+      simp only [guard, List.all_cons, Ev.passes, Bool.and_eq_true, beq_iff_eq] at hg
+      have hb := check_bound c hwf b off size ok hf.1 hv.1 hnw.1 hg.1
+      intro t ht
+      simp only [checksOf, List.mem_cons] at ht
+      rcases ht with h | h
+      · subst h; exact hb
+      · exact ih hf.2 hv.2 hnw.2 (by simpa [guard] using hg.2) t h
+    | assert ok =>
+      simp only [Faithful, PtrsRepresentable, NoWrap] at hf hv hnw
+      simp only [guard, List.all_cons, Bool.and_eq_true] at hg
+      exact ih hf hv hnw (by simpa [guard] using hg.2)
+    | touch lo len w =>
+      simp only [Faithful, PtrsRepresentable, NoWrap] at hf hv hnw
+      simp only [guard, List.all_cons, Bool.and_eq_true] at hg
+      exact ih hf hv hnw (by simpa [guard] using hg.2)
+
+theorem any_inside (n : Nat) (all : List (Nat × Nat × Nat)) (hall : ∀ t ∈ all, t.1 + t.2.1 + t.2.2 ≤ n)
+    (evs : List Ev) (hc : CoveredAny all evs) : allInside n (touches evs) = true := by
+  induction evs with
+  | nil => rfl
+  | cons e r ih =>
+    cases e with
+    | check b off size ok => exact ih hc
+    | assert ok => exact ih hc
+    | touch lo len w =>
+      simp only [touches, allInside, List.all_cons, Bool.and_eq_true]
+      exact ⟨inside_of_covered n all lo len hall hc.1, by simpa [allInside] using ih hc.2⟩
+
+/-- `assign_range` / `assign(first, last)`: the copy is covered by the check of the `resize` that FOLLOWS it -/
+theorem dataAssignRange_any (c : Ctx) (d : DataL) (p len : Nat) :
+    CoveredAny (checksOf (dataAssignRange c d p len)) (dataAssignRange c d p len) := by
+  unfold dataAssignRange
+  rw [dataResize_eq]
+  simp only [dataUnchecked, List.cons_append, List.nil_append, CoveredAny, checksOf]
+  exact ⟨Or.inr ⟨(p, 0, d.lenSize + len), by simp, by simp only; omega, by simp only; omega⟩,
+    Or.inr ⟨(p, 0, d.lenSize + len), by simp, by simp, by simp only; omega⟩, trivial⟩
+
+theorem step_any (c : Ctx) (hn : c.base + c.n < 2^63) (hc : c.Canon) (pos : Pos) (op : Op) (evs : List Ev) (pos' : Pos)
+    (hw : PosWF pos) (hp : Op.preB c pos op = true) (h : step c pos op = some (evs, pos')) :
+    CoveredAny (checksOf evs) evs := by
+  by_cases hcf : op.checkedFirst = true
+  · have := covered_imp_any evs [] (step_good c hn hc pos op evs pos' hw hp hcf h).1.2
+    simpa using this
+  · cases op <;> simp [Op.checkedFirst] at hcf
+    rename_i len
+    cases pos <;> simp [step] at h
+    rename_i p d
+    obtain ⟨h1, _⟩ := h
+    subst h1
+    exact dataAssignRange_any c d p len
+
+theorem walk_any (c : Ctx) (hn : c.base + c.n < 2^63) (hc : c.Canon) : ∀ (ops : List Op) (pos : Pos) (evs : List Ev),
+    PosWF pos → opsOk c pos ops = true → walk c pos ops = some evs → CoveredAny (checksOf evs) evs := by
+  intro ops
+  induction ops with
+  | nil => intro pos evs _ _ h; simp only [walk] at h; injection h with h; subst h; trivial
+  | cons op ops ih =>
+    intro pos evs hw hok h
+    simp only [walk] at h
+    simp only [opsOk, Bool.and_eq_true] at hok
+    match hs : step c pos op with
+    | none => simp [hs] at h
+    | some (e1, pos') =>
+      simp only [hs] at h hok
+      have h1 := step_any c hn hc pos op e1 pos' hw hok.1 hs
+      have hw' := (step_faithful c hn hc pos op e1 pos' hw hok.1 hs).2
+      match hr : walk c pos' ops with
+      | none => simp [hr] at h
+      | some e2 =>
+        simp only [hr] at h
+        injection h with h; subst h
+        have h2 := ih pos' e2 hw' hok.2 hr
+        refine (coveredAny_append _ _ _).mpr ⟨(coveredAny_append _ _ _).mpr ⟨?_, ?_⟩, ?_⟩
+        · exact coveredAny_mono e1 _ _ (by intro t ht; simp only [checksOf_append, List.mem_append]; exact Or.inl (Or.inl ht)) h1
+        · split <;> trivial
+        · exact coveredAny_mono e2 _ _ (by intro t ht; simp only [checksOf_append, List.mem_append]; exact Or.inr ht) h2
+
+end Sbepp.Rt.Guards
+
+namespace Sbepp.Rt.Guards
+
+/-- a canary-mode run that ends normally had every check pass, and is clean if all touches are inside -/
+theorem runCanary_ok (n slack : Nat) (evs : List Ev) : ∀ (i : Nat) (d d' : Bool),
+    runCanary n slack evs i d = (.ok, d') →
+    guard evs = true ∧ (allInside n (touches evs) = true → d' = d) := by
+  induction evs with
+  | nil => intro i d d' h; simp only [runCanary, Prod.mk.injEq] at h; exact ⟨rfl, fun _ => h.2.symm⟩
+  | cons e r ih =>
+    intro i d d' h
+    cases e with
+    | check b off size ok =>
+      match ok, h with
+      | some true, h =>
+        simp only [runCanary] at h
+        have := ih _ _ _ h
+        exact ⟨by simp only [guard, List.all_cons, Ev.passes, beq_self_eq_true, Bool.true_and]; exact this.1, by simpa [touches] using this.2⟩
+      | some false, h => simp [runCanary] at h
+      | none, h => simp [runCanary] at h
+    | assert ok =>
+      match ok, h with
+      | some true, h =>
+        simp only [runCanary] at h
+        have := ih _ _ _ h
+        exact ⟨by simp only [guard, List.all_cons, Ev.passes, beq_self_eq_true, Bool.true_and]; exact this.1, by simpa [touches] using this.2⟩
+      | some false, h => simp [runCanary] at h
+      | none, h => simp [runCanary] at h
+    | touch lo len w =>
+      simp only [runCanary] at h
+      split at h
+      · have := ih _ _ _ h
+        refine ⟨by simp only [guard, List.all_cons, Ev.passes, Bool.true_and]; exact this.1, ?_⟩
+        intro hin
+        simp only [touches, allInside, List.all_cons, Bool.and_eq_true] at hin
+        have h2 := this.2 (by simpa [allInside] using hin.2)
+        rw [h2, hin.1]; simp
+      · simp at h
 
 end Sbepp.Rt.Guards
